@@ -133,8 +133,13 @@ def run_case(case):
                 link_kinds.add(e["link"])
             elif e["kind"] == "file":
                 tw.nodes.append({"p": pp, "t": "f", "c": "payload"})
-            elif e["kind"] == "fifo":
+            elif e["kind"] == "fifo" and not case.get("fault"):
                 tw.nodes.append({"p": pp, "t": "p", "m": 0o600})
+            elif e["kind"] == "fifo":
+                # (with every removal answering EACCES the pinned tree falls back to shutil.rmtree,
+                # which open(2)s its argument and would block on a fifo for ever - a hang that is
+                # not this property's business; a plain file stands in)
+                tw.nodes.append({"p": pp, "t": "f", "c": "payload"})
             elif e["kind"] == "emptydir":
                 # an empty directory as payload (removal primitives that prune empty parents
                 # would take files/ and the trash directory with it)
